@@ -562,6 +562,15 @@ func C17() *sim.Check {
 					class, why := "order-dependent", fmt.Sprintf("under map order %q than under sorted order", o.name)
 					if again != ref[i] {
 						class, why = "repeat-dependent", "when invoked again under the same sorted map order (the simulated clock has jumped, the heap has moved and other operations - including a hostile program in its own interpreter - have run in between)"
+					} else if gcOff {
+						// same order as the reference, collector off again
+						debug.SetGCPercent(-1)
+						third := safeOp(op)
+						debug.SetGCPercent(100)
+						runtime.GC()
+						if third != ref[i] {
+							class, why = "gc-dependent", "when the garbage collector is switched off during the call (as under GOGC=off), map order being the same, than with the collector running"
+						}
 					}
 					out := &sim.Outcome{Class: class, Key: "determ:" + op.name,
 						Detail: fmt.Sprintf("%s gives different output %s: %s", op.name, why, firstDiff(got, ref[i]))}
